@@ -86,8 +86,20 @@ def check_message(mido, m, acc, ns, do_repr=True):
         d = m.dict()
         e1 = mido.Message.from_dict(d)
         e1.time = 987654
+        snap = dict(vars(m))
+        d['time'] = 555                  # the dict is the caller's too
+        d['scribble'] = 1
+        for k0 in list(d):
+            if k0 not in ('type', 'time', 'data', 'scribble'):
+                d[k0] = 9999
         if m.type == 'sysex':
-            d['data'].append(1)          # the dict is the caller's too
+            d['data'].append(1)
+        if dict(vars(m)) != snap:
+            acc.violation(f'dict-aliases-message/{m.type}',
+                          f'changing the dict returned by {snap}.dict() '
+                          f'changed the message to {vars(m)}', case)
+            vars(m).clear()
+            vars(m).update(snap)
         e2 = mido.Message.from_dict(m.dict())
         if not (same_msg(m, b2) and same_msg(m, c2) and same_msg(m, e2)) \
                 or b2 is a or e2 is e1:
